@@ -63,3 +63,10 @@ prop('C16', units=['bk'], level='proof',
      level_note=BK_NOTE,
      not_covered=['parse_initial_status string splitting / rejection before processing (cmd.rs)', 'call site in the async I/O driver (witness D11)'],
      witnesses=['D11'])
+
+prop('C17', units=['costs'], level='proof',
+     technique='Verus contracts on costs.rs: MaxSingleDayCosts sum invariant; calc_max_day_cost_per_sec row k = day maximum or carried closing value for every security; calc_yearly_max_cost_day = best row of the year (earliest on ties)',
+     level_text='Deductive proof (Verus) for all delta lists satisfying deltas_ok (per security in settlement order): every dated row, the carry-forward, the row total and the yearly best day are those of the statement, for any hash iteration order.',
+     level_note=BK_NOTE + ' deltas_ok at the call site in run_acb_app_to_render_model is assumed (concatenation of per-security ledgers). hole_date_keys (keys().map().collect()) is an assumed std paraphrase with arbitrary order.',
+     not_covered=['render_total_costs string assembly', 'Costs::sorted_years (rendering helper)', 'listing of ignored transactions as notes (strings)'],
+     witnesses=['D1', 'D2b'])
